@@ -34,3 +34,7 @@ man = {'version': 1, 'setup_cmd': './setup.sh',
        'notes': 'See DESIGN.md. Every check regenerates the translated Gallina from /repo, rebuilds the proofs (make, full .vo), rebuilds the C++ side from the working tree, and runs the correspondence.'}
 json.dump(man, open(os.path.join(ROOT, 'MANIFEST.json'), 'w'), indent=1)
 print('MANIFEST.json: %d checks, %d not_applicable' % (len(checks), len(na)))
+
+# keep the generated per-property status in step with the manifest
+import subprocess as _sp
+_sp.run(['python3', os.path.join(os.path.dirname(os.path.abspath(__file__)), 'status_table.py')], check=False)
